@@ -1,5 +1,7 @@
 """C20 - client configuration is honoured exactly as documented, in both input syntaxes
 (spec/ClientConfig.tla, spec/ClientConfigGen.tla, harness/client/c20_test.go)."""
+import copy
+import json
 import os
 from concurrent.futures import ThreadPoolExecutor
 
@@ -20,6 +22,12 @@ ASSUME = [
     "the four addresses reach ProcessRawConfig either as options or set on the RawConfig the way cmd/ck-client does; "
     "cmd/ck-client's own flag/env handling is not executed",
     "encoding/json, encoding/base64, net.JoinHostPort and net/url of the Go runtime are trusted",
+    "the socket-level meaning of KeepAlive is read on Linux from the sockets ck-client's main() dials a loopback listener with "
+    "(SO_KEEPALIVE, TCP_KEEPIDLE; the probe interval is not documented and only logged); main() runs in child processes of a "
+    "package-main test binary, started in plugin mode (SS_* environment), with -c <file> and with -c <options>",
+    "BrowserSig over retries: ClientHello signatures are classified by the size of the first flight (the C01 connector "
+    "driver); the chrome -> firefox fallback is not in the README, it is judged only on the first attempt and otherwise "
+    "taken from the comment in connector.go",
 ]
 
 ALL = ["Transport", "BrowserSig", "CDNOriginHost", "CDNWsUrlPath", "RemoteHost", "NumConn", "KeepAlive",
@@ -30,7 +38,42 @@ CORE = ["Transport", "BrowserSig", "CDNOriginHost", "CDNWsUrlPath", "RemoteHost"
 CORE_T = CORE + ["StreamTimeout", "UDP"]
 # output columns in the order ClientConfigGen!ExpFields prints them
 EXP_FIELDS = ["outcome", "mode", "browser", "wsHost", "wsPath", "singleplex", "numConn", "keepAlive", "timeout",
-              "names", "enc", "unordered"]
+              "names", "enc", "unordered", "dialer"]
+
+
+# package main of ck-client is reached through the same overlay machinery as internal packages
+lib.PKG_ALIAS.setdefault("cmd/ck-client", "../cmd/ck-client")
+
+
+def sub_ctx(ctx, name):
+    """lib.run_go writes <work>/overlay.json: concurrent go runs get work directories of their own (shared evidence lists)"""
+    c = copy.copy(ctx)
+    c.work = os.path.join(ctx.work, name)
+    os.makedirs(c.work, exist_ok=True)
+    return c
+
+
+def main_part(ctx, q, rows_future):
+    """the `dialer` column: rows KeepAlive x NumConn (x Transport) judged on ck-client's real main() in child processes"""
+    _, r = rows_future.result()
+    rows = [decode_row(line) for line in sorted(set(r.behaviours))]
+    c = sub_ctx(ctx, "main")
+    inp = lib.write_lines(os.path.join(c.work, "c20_main_rows.ndjson"), rows)
+    res = lib.run_go(c, "cmd/ck-client", "TestVerifC20Main", env={"VERIF_IN": inp, "VERIF_C20_LAUNCHES": 1 if q else 3},
+                     timeout=900 if q else 2400, tag="main")
+    return rows, res
+
+
+def connector_part(ctx, q, futures):
+    """BrowserSig over retries: ClientSession scripts through C01's shared connector driver, configuration as text"""
+    beh = []
+    for f in futures:
+        beh += f.result().behaviours
+    c = sub_ctx(ctx, "connector")
+    inp = lib.write_lines(os.path.join(c.work, "c20_connector.ndjson"), beh)
+    res = lib.run_go(c, "server", "TestVerifC20Connector", env={"VERIF_IN": inp, "VERIF_C20_BOTH_SYNTAXES": 0 if q else 1},
+                     timeout=900, tag="connector", prefixes=("c20", "c01", "shared"))
+    return beh, res
 
 
 def decode_row(line):
@@ -91,6 +134,16 @@ def run(ctx):
         tl_job = ex.submit(lambda: lib.require_ok(lib.run_tlc(
             ctx, "ClientTimeoutsGen", "ClientTimeoutsGen.cfg", {"WAITS": "{1, 998, 3, 3000}", "MAXSTEPS": tl_steps},
             workers=2, tag="timeline", timeout=900, env=jvm(ctx)), "ClientTimeouts"))
+        # 2c. the columns that only show outside ProcessRawConfig: what main() hands to net.Dialer (KeepAlive) and the
+        #     signature of every ClientHello of MakeSession's retry loop (BrowserSig); small TLC runs first, then the two
+        #     go runs proceed while the big enumerations are still going
+        main_rows_job = ex.submit(gen, ctx, "main", ["KeepAlive", "NumConn"] if q else ["KeepAlive", "NumConn", "Transport"], 99, 0, None, 2)
+        sess_jobs = [ex.submit(lambda br=br: lib.require_ok(lib.run_tlc(
+            ctx, "ClientSessionGen", "ClientSessionGen.cfg", {"MAXFAIL": 2 if q else 3, "MODE": "direct", "BROWSER": br},
+            workers=2, tag="session_%s" % br, timeout=900, env=jvm(ctx)), "ClientSessionGen")) for br in ("chrome", "firefox", "safari")]
+        side = ThreadPoolExecutor(max_workers=2)
+        main_job = side.submit(main_part, ctx, q, main_rows_job)
+        conn_job = side.submit(connector_part, ctx, q, sess_jobs)
         for j in jobs:
             r = j.result()
             ctx.log("model check ClientConfig (MaxDev=%d): %d distinct states" % (mc_dev, r.distinct))
@@ -135,10 +188,28 @@ def run(ctx):
     if res["stats"].get("probe:noticed", 0) != len(probe) or res["stats"].get("probe:rows", 0) != len(probe):
         raise lib.Inconclusive("falsified expectation (KeepAlive) was noticed on %s of %d probe rows: the oracle is blind"
                                % (res["stats"].get("probe:noticed", 0), len(probe)))
+    # 3b. the side runs
+    main_rows, mres = main_job.result()
+    scripts, cres = conn_job.result()
+    side.shutdown()
+    lib.collect_go(ctx, mres)
+    lib.collect_go(ctx, cres)
+    mstats, cstats = mres["stats"], cres["stats"]
+    ok_rows = [r for r in main_rows if r["exp"]["outcome"] == "ok"]
+    if mstats.get("main:no-loopback"):
+        raise lib.Inconclusive("loopback TCP is not available: the dialer column cannot be observed (%s)" % mres.get("notes"))
+    if mstats.get("main:child-failed") or mstats.get("main:children", 0) < len(ok_rows):
+        raise lib.Inconclusive("ck-client main() harness: %s children failed, %s of %d rows judged: %s"
+                               % (mstats.get("main:child-failed", 0), mstats.get("main:children", 0), len(ok_rows), mres.get("notes")))
+    if cstats.get("connector:diverged") or cstats.get("connector:scripts", 0) < len(scripts):
+        raise lib.Inconclusive("connector scripts could not be followed (%s of %d, diverged %s): %s"
+                               % (cstats.get("connector:scripts", 0), len(scripts), cstats.get("connector:diverged", 0), cres.get("notes")))
+    ctx.log("main(): %d children, %d dialed sockets inspected; connector: %d scripts" %
+            (mstats.get("main:children", 0), mstats.get("main:sockets", 0), cstats.get("connector:scripts", 0)))
     stats = res["stats"]
     cov = {
-        "evaluations": res["evaluations"],
-        "distinct_nontrivial": res["distinct_nontrivial"],
+        "evaluations": res["evaluations"] + mres["evaluations"] + cres["evaluations"],
+        "distinct_nontrivial": res["distinct_nontrivial"] + mres["distinct_nontrivial"] + cres["distinct_nontrivial"],
         "rule": "rows = terminal states of ClientConfigGen: (core) the full product of %s with the other options at the "
                 "example configuration; (twise) every combination of values of any %d options, the rest at the example "
                 "configuration, at most 2 required fields missing/malformed; (sim) uniformly random rows of the full "
@@ -147,9 +218,16 @@ def run(ctx):
                 "distinct abstract rows. Timeline: every maximal behaviour of ClientTimeoutsGen with <= %d steps (pauses of "
                 "1, 998, 3 and 3000 thousandths of StreamTimeout, first bytes, upload, download), each replayed on the real "
                 "RouteTCP under %d of 10 processed configurations (StreamTimeout 1, 7, 300, 0, absent x NumConn 4, 0) on a "
-                "virtual clock" % ("x".join(CORE if q else CORE_T), 3 if q else 4, variants, tl_steps, tl_configs),
-        "samples": res["samples"],
-        "traces_validated_against_impl": len(rows) + len(tl.behaviours),
+                "virtual clock. Dialer: rows KeepAlive x NumConn%s of ClientConfigGen, each run through ck-client's real main() in a child "
+                "process (%d of the launch modes plugin / file / options per row), SO_KEEPALIVE and TCP_KEEPIDLE of every dialed socket "
+                "read. BrowserSig over retries: every script of ClientSessionGen with <= %d failed attempts for chrome, firefox, "
+                "safari replayed on MakeSession through the C01 connector driver, configuration as JSON file / option string" % ("x".join(CORE if q else CORE_T), 3 if q else 4, variants, tl_steps, tl_configs,
+                                                                        "" if q else " x Transport", 1 if q else 3, 2 if q else 3),
+        "samples": res["samples"] + mres["samples"][:2],
+        "main_harness_stats": mstats,
+        "connector_stats": cstats,
+        "connector_scripts": len(scripts),
+        "traces_validated_against_impl": len(rows) + len(tl.behaviours) + len(ok_rows) + len(scripts),
         "timeline_behaviours": len(tl.behaviours),
         "timeline_evaluations": stats.get("timeline:evaluations", 0),
         "rows_replayed": len(rows),
@@ -163,13 +241,20 @@ def run(ctx):
         "exhaustive": True,
         "exhaustive_scope": "the decision table within the stated bounds (core product and t-wise), not the full product",
         "oracle_probe": "falsified KeepAlive expectation noticed on %d rows" % len(probe),
-        "checker_cmd": "tlc ClientConfig.tla (ClientConfig_mc.cfg) / ClientConfigGen.tla / ClientTimeoutsGen.tla + go test -run TestVerifC20Replay ./internal/client/",
+        "checker_cmd": "tlc ClientConfig.tla (ClientConfig_mc.cfg) / ClientConfigGen.tla / ClientTimeoutsGen.tla + go test -run TestVerifC20Replay ./internal/client/ + go test -run TestVerifC20Main ./cmd/ck-client/ + "
+                       "ClientSessionGen.tla + go test -run TestVerifC20Connector ./internal/server/",
     }
     return lib.finish(ctx, LEVEL, cov, ASSUME)
 
 
 def replay(ctx, path):
-    res = lib.run_go(ctx, "client", "TestVerifC20Replay", env={"VERIF_REPLAY": os.path.abspath(path)},
-                     extra_args=["-v"])
+    rp = json.load(open(path)).get("replay") or {}
+    env = {"VERIF_REPLAY": os.path.abspath(path)}
+    if "main" in rp:
+        res = lib.run_go(ctx, "cmd/ck-client", "TestVerifC20Main", env=env, extra_args=["-v"])
+    elif "connector" in rp:
+        res = lib.run_go(ctx, "server", "TestVerifC20Connector", env=env, extra_args=["-v"], prefixes=("c20", "c01", "shared"))
+    else:
+        res = lib.run_go(ctx, "client", "TestVerifC20Replay", env=env, extra_args=["-v"])
     print(open(os.path.join(res["_out_dir"], "go.out")).read())
     return 0
